@@ -4,6 +4,9 @@
 // build tag `verif`, where it still contains no code). Checked by /verif/govc.
 package keeper
 
+// ---- shared spec functions ---------------------------------------------------------------------------
+//@ define safetyFactor(ctx) := row(ctx, "leveragelp:types.KeyPrefix", "types.Params", "leveragelp_params").SafetyFactor
+
 // ---- C08: pool totals = Σ positions; counter = number of positions ---------------------------------
 //@ aggregate posLpSum(p) table leveragelp:types.GetPositionKey row types.Position value ite(row.AmmPoolId == p, row.LeveragedLpAmount, 0)
 //@ aggregate posCount table leveragelp:types.GetPositionKey row types.Position value 1
@@ -30,20 +33,24 @@ package keeper
 //@ ensures C08/destroy-keeps-counter-in-step: err == nil && old(openCount(ctx)) > 0 ==> lpCountGap(ctx) == old(lpCountGap(ctx))
 //@ ensures C08/destroy-removes-the-row: err == nil ==> !posHas(ctx, positionAddress, id)
 
+// Computing a position's health settles the interest of its debt and changes nothing else:
+// in particular no debt principal moves.
 //@ func (Keeper).GetPositionHealth
+//@ forall a Addr
 //@ modifies module:stablestake
-//@ frame-only
+//@ ensures C10/computing-health-moves-no-principal: principalOf(ctx, a) == old(principalOf(ctx, a))
+//@ ensures C08/reads-only: true
 
 // Pagination over the position store (query.Paginate, SDK code): the page holds stored rows,
 // each key at most once. Trusted: the body is SDK pagination with a callback.
 //@ func (Keeper).GetPositions
 //@ modifies nothing
 //@ trusted
-//@ ensures C08/page-of-stored-positions: allOf(result0, x, posHas(ctx, unbech32(x.Address), x.Id) && posRow(ctx, unbech32(x.Address), x.Id).LeveragedLpAmount == x.LeveragedLpAmount && posRow(ctx, unbech32(x.Address), x.Id).AmmPoolId == x.AmmPoolId)
+//@ ensures C08/page-of-stored-positions: allOf(result0, x, posHas(ctx, unbech32(x.Address), x.Id) && posRow(ctx, unbech32(x.Address), x.Id).LeveragedLpAmount == x.LeveragedLpAmount && posRow(ctx, unbech32(x.Address), x.Id).AmmPoolId == x.AmmPoolId && posRow(ctx, unbech32(x.Address), x.Id).Collateral.Amount == x.Collateral.Amount)
 //@ ensures C08/page-without-repeats: len(result0) < 2 || result0[0].Id != result0[1].Id || unbech32(result0[0].Address) != unbech32(result0[1].Address)
 
 // A position handed to the functions below is the stored one (or a new one with no shares yet).
-//@ define positionIsStored(ctx, pos) := ite(posHas(ctx, unbech32(pos.Address), pos.Id), posRow(ctx, unbech32(pos.Address), pos.Id).LeveragedLpAmount == pos.LeveragedLpAmount && posRow(ctx, unbech32(pos.Address), pos.Id).AmmPoolId == pos.AmmPoolId, pos.LeveragedLpAmount == 0)
+//@ define positionIsStored(ctx, pos) := ite(posHas(ctx, unbech32(pos.Address), pos.Id), posRow(ctx, unbech32(pos.Address), pos.Id).LeveragedLpAmount == pos.LeveragedLpAmount && posRow(ctx, unbech32(pos.Address), pos.Id).AmmPoolId == pos.AmmPoolId && posRow(ctx, unbech32(pos.Address), pos.Id).Collateral.Amount == pos.Collateral.Amount, pos.LeveragedLpAmount == 0)
 
 //@ func (Keeper).ProcessOpenLong
 //@ forall p Int
@@ -52,6 +59,7 @@ package keeper
 //@ requires positionIsStored(ctx, position)
 //@ ensures C08/pool-total-in-step-with-positions: err == nil ==> lpPoolGap(ctx, p) == old(lpPoolGap(ctx, p))
 //@ ensures C08/counter-in-step: err == nil ==> lpCountGap(ctx) == old(lpCountGap(ctx)) - ite(old(posHas(ctx, unbech32(position.Address), position.Id)), 0, 1)
+//@ ensures C10/opens-above-safety-factor: err == nil ==> result0.PositionHealth > k.GetSafetyFactor(ctx) && result0.PositionHealth == fst(resultOf("GetPositionHealth", 1)) && posRow(ctx, unbech32(position.Address), position.Id).PositionHealth == result0.PositionHealth
 
 //@ func (Keeper).OpenLong
 //@ forall p Int
@@ -79,6 +87,7 @@ package keeper
 //@ ensures C08/counter-in-step: err == nil ==> lpCountGap(ctx) == old(lpCountGap(ctx))
 //@ ensures C08/full-close-removes-the-position: err == nil && lpAmount == position.LeveragedLpAmount ==> !posHas(ctx, unbech32(position.Address), position.Id)
 //@ ensures C08/partial-close-keeps-the-rest: err == nil && lpAmount != position.LeveragedLpAmount ==> posHas(ctx, unbech32(position.Address), position.Id) && posRow(ctx, unbech32(position.Address), position.Id).LeveragedLpAmount == old(position.LeveragedLpAmount) - lpAmount
+//@ callers C10/force-close-only-behind-a-gate: (Keeper).CloseLong, (Keeper).CheckAndLiquidateUnhealthyPosition, (Keeper).CheckAndCloseAtStopLoss
 
 // ---- C08: the other writers of the leveragelp store, and the callers up to the entry points ---------
 // Primitive writers of the invariant's tables: executed in line at their call sites (their
@@ -149,6 +158,7 @@ package keeper
 // books must be in step.
 //@ func (Keeper).CheckAndLiquidateUnhealthyPosition
 //@ forall p Int
+//@ forall a Addr
 //@ decabstract
 //@ modifies *position.PositionHealth
 //@ modifies table:leveragelp:types.GetPositionKey[unbech32(position.Address); position.Id], table:leveragelp:types.KeyPrefix/types.PoolKey["Pool/value/"; position.AmmPoolId], table:leveragelp:types.OpenPositionCountPrefix
@@ -159,6 +169,9 @@ package keeper
 //@ ensures C08/pool-total-in-step-with-positions: lpPoolGap(ctx, p) == old(lpPoolGap(ctx, p))
 //@ ensures C08/counter-in-step: lpCountGap(ctx) == old(lpCountGap(ctx))
 //@ ensures C08/failed-or-unattempted-close-changes-nothing: err != nil ==> posHas(ctx, unbech32(position.Address), position.Id) && positionIsStored(ctx, position) && poolHas(ctx, position.AmmPoolId) && poolRow(ctx, position.AmmPoolId).LeveragedLpAmount == old(poolRow(ctx, position.AmmPoolId).LeveragedLpAmount) && position.AmmPoolId == old(position.AmmPoolId)
+//@ ensures C10/health-is-computed-at-that-moment: err == nil || closeAttempted || isHealthy ==> health == fst(resultOf("GetPositionHealth", 1))
+//@ ensures C10/closes-only-at-or-below-safety-factor: closeAttempted ==> health <= old(k.GetSafetyFactor(ctx)) && !isHealthy
+//@ ensures C10/healthy-position-left-alone: !closeAttempted ==> !bankTouched(ctx) && posHas(ctx, unbech32(position.Address), position.Id) && posRow(ctx, unbech32(position.Address), position.Id).LeveragedLpAmount == old(position.LeveragedLpAmount) && posRow(ctx, unbech32(position.Address), position.Id).Collateral.Amount == old(position.Collateral.Amount) && principalOf(ctx, a) == old(principalOf(ctx, a))
 
 //@ func (Keeper).CheckAndCloseAtStopLoss
 //@ forall p Int
@@ -171,6 +184,9 @@ package keeper
 //@ assumes openCount(ctx) > 0
 //@ ensures C08/pool-total-in-step-with-positions: lpPoolGap(ctx, p) == old(lpPoolGap(ctx, p))
 //@ ensures C08/counter-in-step: lpCountGap(ctx) == old(lpCountGap(ctx))
+//@ forall a Addr
+//@ ensures C10/closes-only-at-stop-loss: closeAttempted ==> underStopLossPrice && fst(resultOf("LpTokenPrice", 1)) <= old(position.StopLossPrice)
+//@ ensures C10/position-above-stop-loss-left-alone: !closeAttempted ==> !bankTouched(ctx) && posHas(ctx, unbech32(position.Address), position.Id) && posRow(ctx, unbech32(position.Address), position.Id).LeveragedLpAmount == old(position.LeveragedLpAmount) && posRow(ctx, unbech32(position.Address), position.Id).Collateral.Amount == old(position.Collateral.Amount) && principalOf(ctx, a) == old(principalOf(ctx, a))
 
 //@ func (Keeper).CloseLong
 //@ forall p Int
@@ -178,6 +194,10 @@ package keeper
 //@ assumes openCount(ctx) > 0
 //@ ensures C08/pool-total-in-step-with-positions: err == nil ==> lpPoolGap(ctx, p) == old(lpPoolGap(ctx, p))
 //@ ensures C08/counter-in-step: err == nil ==> lpCountGap(ctx) == old(lpCountGap(ctx))
+//@ ensures C10/owner-closes-own-position: err == nil ==> unbech32(result0.Address) == unbech32(msg.Creator) && result0.Id == msg.Id
+//@ modifies table:leveragelp:types.GetPositionKey[unbech32(msg.Creator); msg.Id]
+//@ modifies table:leveragelp:types.KeyPrefix/types.PoolKey, table:leveragelp:types.OpenPositionCountPrefix
+//@ modifies bank, module:amm, module:stablestake, module:commitment, module:masterchef, module:accountedpool, module:estaking, module:perpetual, module:tier, module:sdk-distribution
 
 //@ func (Keeper).Close
 //@ forall p Int
@@ -255,3 +275,6 @@ package keeper
 //@ assumes openCount(ctx) > 0
 //@ ensures C08/pool-total-in-step-with-positions: lpPoolGap(ctx, p) == old(lpPoolGap(ctx, p))
 //@ ensures C08/counter-in-step: lpCountGap(ctx) == old(lpCountGap(ctx))
+
+// ---- C10: others close a position only when allowed; opens start healthy ---------------------------------
+// (clauses added to the contracts above)
